@@ -70,8 +70,10 @@ func (a *protArena) place(o *Opnd) *Dec {
 		d.SetPrec(uint(o.Prec))
 		d.SetInf(o.Neg)
 	default:
+		// the mantissa gets spare capacity inside the protected pages (as mantissas produced by
+		// arithmetic have): a store just behind the operand's last word faults too
 		n := len(o.Words)
-		ws := unsafe.Slice((*Word)(a.alloc(8*n)), n)
+		ws := unsafe.Slice((*Word)(a.alloc(8*(n+3))), n+3)[:n]
 		for i, w := range o.Words {
 			ws[i] = Word(w)
 		}
@@ -203,7 +205,7 @@ func wprotOperands(tier string) []*Opnd {
 			vs = append(vs, mkWords(e%2 == 0, v, e, 0, 0))
 		}
 	}
-	for _, n := range []int{31, 64, 100, 128} {
+	for _, n := range []int{30, 31, 32, 64, 100, 128} { // 30/31/32: operands whose lengths differ by exactly one word
 		for j, p := range natPatterns(n, []uint64{BW - 1, BW / 2}, []uint64{1}) {
 			if j%3 == 0 {
 				vs = append(vs, mkWords(j%2 == 0, p, 5, 0, 0))
